@@ -87,6 +87,12 @@ SCRIPTS = {
     # reader between contains_item and load_item while the entry is evicted
     "evict-between-check-and-load": ("warm-call-reduce", [[0, "_store_backends.py", "if not self._item_exists(filename):", 1],
                                                           [1, "end"], [0, "end"]]),
+    # reader between exists(output.pkl) and open(output.pkl) in load_item while the entry is evicted
+    "evict-between-exists-and-open": ("warm-call-reduce", [[0, "_store_backends.py", "if mmap_mode is None:", 1],
+                                                           [1, "end"], [0, "end"]]),
+    # a writer pre-empted after it opened its temporary and before it wrote it; the other writer of the same entry runs
+    "writer-preempted-after-open-temp": ("cold-call-call", [[0, "_store_backends.py", "numpy_pickle.dump(to_write, f, compress=self.compress)", 1],
+                                                            [1, "end"], [0, "end"]]),
     # writer between create_location and open(temp) while the entry directory is evicted
     "evict-between-mkdir-and-open": ("cold-call-reduce", [[0, "_store_backends.py", 'with self._open_item(dest_filename, "wb") as f:', 1],
                                                           [1, "end"], [0, "end"]]),
@@ -181,10 +187,20 @@ def _run_schedule(a):
     return rec
 
 
+FINAL = ("output.pkl", "metadata.json")
+
+
 def _judge(res, rec, sc_name):
     sc = SCENARIOS[sc_name]
     r = rec["res"]
     desc = dict(scenario=sc_name, schedule=rec["schedule"], tag=rec["tag"])
+    # "never a mixture": nobody creates/truncates or writes a file while it has a final name (strace -y shows the name the
+    # open file has at the time of the call)
+    for pi, o in rec["ops"]:
+        t = o.split(" ")
+        if t[0] in ("creat", "write") and t[1].rsplit("/", 1)[-1] in FINAL:
+            res.fail("final-name-written-in-place:" + t[1].rsplit("/", 1)[-1], desc, dict(participant=pi, op=o))
+            break
     others = sorted({p["kind"] for p in sc["parts"]})
     for i, p in enumerate(sc["parts"]):
         if p["kind"] != "call":
@@ -310,6 +326,18 @@ def _explore(ctx, scale=1):
     thorough = ctx.thorough or scale > 1
     rng = ctx.rng("sched")
     pre = {name: _prepare_scenario(base, name, ids) for name in SCENARIOS}
+    if ctx.replay and ctx.replay.get("case", {}).get("scenario") in SCENARIOS:
+        case = ctx.replay["case"]
+        rec = _run_schedule((base, case["scenario"], pre[case["scenario"]], ids, case["schedule"], "replay", False))
+        res.evaluations += 1
+        if rec.get("res") is None:
+            res.fail("scheduler-run-failed", dict(scenario=case["scenario"], schedule=case["schedule"]), dict(rc=rec["rc"], err=rec["err"]))
+            return res
+        _judge(res, rec, case["scenario"])
+        rq = _model_request(rec, case["scenario"], ids)
+        if rq is not None:
+            _compare(res, rec, case["scenario"], ctx.driver().run([rq])[0])
+        return res
     # dry runs: number of steps of every participant when run alone first
     dry = [(base, name, pre[name], ids, dict(mode="none"), "dry", False) for name in SCENARIOS]
     jobs = []
